@@ -35,6 +35,14 @@ with open(os.path.join(os.environ['MV_DUMP'], mvid + '.jsonl'), 'a', encoding='u
     f.write(json.dumps(rec) + '\n')
 '''
 
+WDUMPER = r'''
+import json, os, sys, uuid
+rec = {'argv': sys.argv[1:], 'env': {k: v for k, v in os.environ.items() if k.startswith('MV_E')}}
+with open(os.path.join(os.environ['MV_DUMP'], 'w-' + uuid.uuid4().hex + '.json'), 'w', encoding='utf-8',
+          errors='surrogateescape') as f:
+    f.write(json.dumps(rec))
+'''
+
 CCWRAP = '''#!/bin/sh
 # compiler stand-in: real cc while meson probes it, dumper when the harness executes a build statement
 if [ -n "$MV_ID" ]; then exec "{py}" "{dump}" "$@"; fi
@@ -91,6 +99,8 @@ def hostile(rng, extra: T.List[str], allow_nl: bool) -> str:
     s = s.replace('\0', '')
     if not allow_nl:
         s = s.replace('\n', 'N')
+    if s == '&&':
+        s = '&&&'      # an element that is exactly `&&` separates commands; that is generated deliberately (mode andand)
     # stay clear of accidental template names (the generator adds templates deliberately)
     s = re.sub(r'@([A-Z_0-9]+)@', r'@ \1@', s)
     return s
@@ -145,6 +155,32 @@ def gen_project(rng, idx: int, kind: str, extra: T.List[str], nsites: int) -> T.
         args = ['-DV0=a\nb']
         L.append(f"executable('e0', 'main.c', c_args: {msl(args)})")
         sites.append(Site('e0', 'c_args', 'plain', args, []))
+        return sites, '\n'.join(L) + '\n'
+    if kind == 'tests':
+        # the `meson test` leg: several tests with distinct hostile arguments, two test setups
+        nt = 4
+        for i in range(nt):
+            mode = ['plain', 'env', 'workdir', 'serial'][i % 4]
+            args = [hostile(rng, extra, True) for _ in range(rng.randint(1, 3))] + [rng.choice(OPTLIKE)]
+            sid = f't{i}'
+            env = mkenv(sid, True) if mode == 'env' else []
+            kw = ''
+            if env:
+                envdef(f'env_{sid}', env)
+                kw += f', env: env_{sid}'
+            if mode == 'workdir':
+                kw += ', workdir: meson.current_source_dir()'
+            if mode == 'serial':
+                kw += ', is_parallel: false'
+            L.append(f"test('{sid}', py, args: [dump, 'mvid={sid}'{''.join(', ' + msn(a) for a in args)}]{kw})")
+            sites.append(Site(sid, 'test', mode, args, env))
+        wargs = ['W1', hostile(rng, extra, False), rng.choice(OPTLIKE)]
+        L.append(f"add_test_setup('wrap', exe_wrapper: [py, meson.current_source_dir() / 'wdump.py'"
+                 f"{''.join(', ' + msn(a) for a in wargs)}])")
+        sval = hostile(rng, extra, False)
+        L.append(f"add_test_setup('envonly', env: [{msn('MV_ES=' + sval)}], timeout_multiplier: 2)")
+        sites.append(Site('setup-wrap', 'test_setup', 'exe_wrapper', wargs, []))
+        sites.append(Site('setup-envonly', 'test_setup', 'env', [], [('MV_ES', sval)]))
         return sites, '\n'.join(L) + '\n'
     if kind == 'optlike':
         # every option-like word lands in at least one command that runs through `meson --internal exe`
@@ -290,6 +326,8 @@ def write_project(root: str, text: str, sites: T.List[Site]) -> T.Tuple[str, str
         f.write(text)
     with open(os.path.join(src, 'dump.py'), 'w') as f:
         f.write(DUMPER)
+    with open(os.path.join(src, 'wdump.py'), 'w') as f:
+        f.write(WDUMPER)
     with open(os.path.join(src, 'main.c'), 'w') as f:
         f.write('int main(void) { return 0; }\n')
     with open(os.path.join(src, 'feed.txt'), 'w') as f:
@@ -492,7 +530,7 @@ def _evaluate_project(ctx: Ctx, root: str, b: str, dumpdir: str, kind: str, site
         elif s.position in ('project_args', 'project_link_args'):
             # checked on every compile / link statement of the project below
             continue
-        elif s.position == 'test':
+        elif s.position in ('test', 'test_setup'):
             continue
         else:
             st = None
@@ -625,6 +663,9 @@ def _evaluate_project(ctx: Ctx, root: str, b: str, dumpdir: str, kind: str, site
                     if msg:
                         ctx.violation(key_of(s), 'through gcc @file: ' + msg, case_of(kind, s, {'gcc_defines': real}))
 
+    if kind == 'tests':
+        run_test_variants(ctx, root, b, kind, sites)
+        return
     # tests through `meson test`
     tsites = [s for s in sites if s.position == 'test']
     if tsites:
@@ -649,6 +690,152 @@ def _evaluate_project(ctx: Ctx, root: str, b: str, dumpdir: str, kind: str, site
                 if recs[0]['env'].get(k) != v:
                     ctx.violation(key_of(s), f'test env {k}: expected {v!r}, got {recs[0]["env"].get(k)!r}', case_of(kind, s, {}))
             ctx.seen_nontrivial(('e2e', key_of(s)))
+
+
+def _variants(rng, sites: T.List[Site]) -> T.List[dict]:
+    """`meson test` invocations: CLI words, the wrapper words expected in front of the program, extra --test-args,
+    repeat count, env expected from the setup"""
+    import shlex
+    from .c03 import rand_string
+    wsite = next(s for s in sites if s.sid == 'setup-wrap')
+    esite = next(s for s in sites if s.sid == 'setup-envonly')
+    cw = ['W0', 'a b', rng.choice(OPTLIKE[1:]) or 'x']          # --wrapper words (after the passthrough dumper)
+    ta = [rng.choice(HOSTILE).replace('\n', 'N') or 'e', rng.choice(OPTLIKE[1:]) or 'z']
+    ta_cli = '--test-args=' + ' '.join(shlex.quote(x) for x in ta)
+    return [
+        dict(name='plain', cli=['-j4'], wrap=None, extra=[], repeat=1, env=[]),
+        dict(name='wrapper', cli=['--wrapper', '@WRAPPER@', '-j4'], wrap=cw, extra=[], repeat=1, env=[]),
+        dict(name='setup-wrap', cli=['--setup', 'wrap', '-j1'], wrap=wsite.args, extra=[], repeat=1, env=[]),
+        dict(name='setup-env', cli=['--setup', 'envonly'], wrap=None, extra=[], repeat=1, env=esite.env),
+        dict(name='test-args', cli=[ta_cli, '-j4'], wrap=None, extra=ta, repeat=1, env=[]),
+        dict(name='repeat', cli=['--repeat', '2', '-j1'], wrap=None, extra=[], repeat=2, env=[]),
+        dict(name='setup-wrap+repeat+test-args', cli=['--setup', 'wrap', '--repeat', '2', '-j4', ta_cli],
+             wrap=wsite.args, extra=ta, repeat=2, env=[]),
+    ]
+
+
+def run_test_variants(ctx: Ctx, root: str, b: str, kind: str, sites: T.List[Site]) -> None:
+    """(a) real `meson test` under every variant, argv of every started process compared with
+    wrapper ++ program ++ args ++ test-args exactly; (b)+(c) the same variants in-process through
+    TestHarness.get_test_runner with all runners built before anything is compared"""
+    import shlex
+    tsites = [s for s in sites if s.position == 'test']
+    src = os.path.join(root, 'src')
+    wd = os.path.join(src, 'wdump.py')
+    variants = _variants(ctx.rng, sites)
+    for v in variants:
+        if v['name'] == 'wrapper':
+            wstr = ' '.join(shlex.quote(x) for x in [sys.executable, wd] + v['wrap'])
+            v['cli'] = [wstr if x == '@WRAPPER@' else x for x in v['cli']]
+    for v in variants:
+        dumpdir = os.path.join(root, 'dump-' + v['name'])
+        os.makedirs(dumpdir)
+        env = dict(os.environ, MV_DUMP=dumpdir, PYTHONPATH=common.REPO, LC_ALL='C.UTF-8',
+                   PATH=FAKEBIN + os.pathsep + os.environ.get('PATH', ''))
+        env.pop('MV_ID', None)
+        p = subprocess.run([sys.executable, os.path.join(common.REPO, 'meson.py'), 'test', '--no-rebuild', '-C', b] + v['cli'],
+                           env=env, stdout=subprocess.PIPE, stderr=subprocess.STDOUT, timeout=300)
+        log = p.stdout.decode('utf-8', 'replace')[-500:]
+        wrecs = []
+        for fn in sorted(os.listdir(dumpdir)):
+            if fn.startswith('w-'):
+                wrecs.append(json.load(open(os.path.join(dumpdir, fn), encoding='utf-8', errors='surrogateescape')))
+        for s in tsites:
+            ctx.count()
+            ctx.tag('e2e:mtest:' + v['name'])
+            case = case_of(kind, s, {'variant': v['name'], 'cli': v['cli'], 'wrapper': v['wrap'], 'test_args': v['extra']})
+            key = f'test/{v["name"]}:{s.args!r}'.replace(' ', '␣')
+            want_tail = s.args + v['extra']
+            if v['wrap'] is None:
+                recs = read_dump(dumpdir, s.sid)
+                got = [r['argv'] for r in recs]
+                if got != [want_tail] * v['repeat']:
+                    ctx.violation(key, f'meson test ({v["name"]}): test process argv: expected {v["repeat"]} x {want_tail!r}, '
+                                  f'got {got!r} (rc={p.returncode})', dict(case, got=got, log=log))
+                    continue
+            else:
+                mine = [r for r in wrecs if f'mvid={s.sid}' in r['argv']]
+                got = [r['argv'] for r in mine]
+                nw = len(v['wrap'])
+                ok = len(got) == v['repeat']
+                for g in got:
+                    # wrapper words, then the program (python + dumper script), the id word, the arguments, the extra ones
+                    ok = ok and g[:nw] == v['wrap'] and len(g) == nw + 3 + len(want_tail) and \
+                        g[nw + 2:nw + 3] == [f'mvid={s.sid}'] and g[nw + 3:] == want_tail and g[nw + 1].endswith('dump.py')
+                if not ok:
+                    ctx.violation(key, f'meson test ({v["name"]}): the wrapper is started with {got!r}; expected '
+                                  f'{v["repeat"]} x {v["wrap"]!r} + [python, dump.py, mvid] + {want_tail!r} (rc={p.returncode})',
+                                  dict(case, got=got, log=log))
+                    continue
+                recs = mine
+            for k, val in list(s.env) + list(v['env']):
+                if any(r['env'].get(k) != val for r in recs):
+                    ctx.violation(key, f'meson test ({v["name"]}): env {k} expected {val!r}', dict(case, log=log))
+            ctx.seen_nontrivial(('e2e', key))
+    mtest_inprocess(ctx, b, kind, tsites, variants)
+
+
+def mtest_inprocess(ctx: Ctx, b: str, kind: str, tsites: T.List[Site], variants: T.List[dict]) -> None:
+    """SingleTestRunner._get_cmd/_get_test_cmd on the unpickled TestSerialisation objects, per variant; every runner
+    is constructed before any command is looked at"""
+    import argparse
+    import copy
+    from .c03 import lenc as _lenc, guarded
+    from mesonbuild import mtest
+    by_name = {s.sid: s for s in tsites}
+    lines: T.List[str] = []
+    impl: T.List[T.Tuple[dict, str, str]] = []
+    cwd = os.getcwd()
+    for v in variants:
+        try:
+            parser = argparse.ArgumentParser()
+            mtest.add_arguments(parser)
+            opts = parser.parse_args(['--no-rebuild', '-C', b] + v['cli'])
+            with mtest.TestHarness(opts) as th:
+                before_opt = copy.deepcopy(th.options.wrapper)
+                before_setups = {k: copy.deepcopy(ts.exe_wrapper) for k, ts in th.build_data.test_setups.items()}
+                runners = [(t, it, th.get_test_runner(t, it)) for it in range(v['repeat']) for t in th.tests]
+                # (c) aliasing oracle: building runners must not modify the wrapper lists owned by options / setups
+                after_setups = {k: ts.exe_wrapper for k, ts in th.build_data.test_setups.items()}
+                if th.options.wrapper != before_opt or after_setups != before_setups:
+                    ctx.violation(f'test-wrapper-list-modified:{v["name"]}',
+                                  f'constructing {len(runners)} test runners changed a wrapper list owned by the options / '
+                                  f'a test setup: before {before_opt!r} {before_setups!r}, after {th.options.wrapper!r} '
+                                  f'{after_setups!r}', {'position': 'test', 'variant': v['name'], 'cli': v['cli'],
+                                                        'project_kind': kind})
+                for t, it, r in runners:
+                    ctx.count()
+                    ctx.tag('a:mtest-cmd')
+                    site = by_name.get(t.name)
+                    full = guarded('runner-cmd', lambda: _lenc((r.cmd or []) + r.test.cmd_args + r.options.test_args))
+                    wrapper = guarded('get_wrapper', lambda: list(mtest.TestHarness.get_wrapper(r.options)))
+                    # model inputs: the wrapper this variant was invoked with, the serialised program and arguments
+                    wexp = [] if v['wrap'] is None else None
+                    if wexp is None:
+                        wexp = wrapper[:2] + v['wrap'] if isinstance(wrapper, list) else []
+                    lines.append(f'testcmd {_lenc(wexp)}|{_lenc(t.fname)}|{_lenc(t.cmd_args)}|{_lenc(v["extra"])}')
+                    impl.append(({'variant': v['name'], 'test': t.name, 'iteration': it, 'cli': v['cli']}, full, t.name))
+                    # oracle (implementation only): wrapper ++ program ++ the arguments of the build definition ++ --test-args
+                    if site is not None and not full.startswith('IMPL-SHAPE'):
+                        got = [dec(x[1:]) for x in full.split(',')] if full else []
+                        nw = 0 if v['wrap'] is None else len(v['wrap']) + 2
+                        want_tail = [f'mvid={site.sid}'] + site.args + v['extra']
+                        okw = v['wrap'] is None or got[2:nw] == v['wrap']
+                        if not (okw and len(got) == nw + 2 + len(want_tail) and got[nw + 2:] == want_tail):
+                            ctx.violation(f'test-runner-cmd/{v["name"]}:{site.args!r}'.replace(' ', '␣'),
+                                          f'runner {t.name} (iteration {it}) of `meson test {" ".join(v["cli"])}` would start '
+                                          f'{got!r}; expected wrapper {v["wrap"]!r}, program, then {want_tail!r}',
+                                          case_of(kind, site, {'variant': v['name'], 'cli': v['cli'], 'got': got}))
+        except SystemExit as e:
+            ctx.violation(f'mtest-exit:{v["name"]}', f'TestHarness exited ({e.code}) for `meson test {" ".join(v["cli"])}`',
+                          {'position': 'test', 'variant': v['name'], 'cli': v['cli'], 'project_kind': kind})
+        finally:
+            os.chdir(cwd)
+    if lines and ctx.model_available:
+        ans = ctx.driver('quote', lines)
+        for (info, full, _n), a in zip(impl, ans):
+            if full != a:
+                ctx.disagreement({'kind': 'mtest-cmd', 'input': info, 'impl': full, 'model': a})
 
 
 def expect_compile(a: str, per_target: bool) -> str:
@@ -696,7 +883,7 @@ def run_e2e(ctx: Ctx, scratch: str, extra_strings: T.Optional[T.List[str]] = Non
         sites, text = gen_project(rng, idx, 'rsp', extra, 4)
         plan.append(('rsp', sites, text))
         idx += 1
-    for kind in ('optlike', 'nl-env', 'nl-compile'):
+    for kind in ('tests', 'optlike', 'nl-env', 'nl-compile'):
         sites, text = gen_project(rng, idx, kind, extra, 1)
         plan.append((kind, sites, text))
         idx += 1
